@@ -1,6 +1,7 @@
 package main
 
 import (
+	"bytes"
 	"fmt"
 	"path"
 	"strings"
@@ -19,6 +20,7 @@ type incLine struct {
 	off    int    // byte offset of the keyword
 	param  string // unquoted parameter
 	status string // ok | lex-error | abstain | no-param
+	end    int    // where the directive ends when it is longer than the keyword's line (a block comment in front of the parameter); 0 otherwise
 }
 
 // lineConvention: "lf", "crlf", "cr", "none" (no line ending at all) or "mixed".
@@ -94,7 +96,26 @@ func findIncludes(data []byte) []incLine {
 				if conv != "mixed" {
 					ln, _, _ = lineCol(data, off)
 				}
-				if rest == "" || rest[0] == ' ' || rest[0] == '\t' || rest[0] == '#' {
+				if tr := strings.TrimLeft(rest, " \t"); strings.HasPrefix(tr, "###") && (rest == tr || rest[0] == ' ' || rest[0] == '\t' || rest[0] == '#') {
+					// a block comment between the keyword and its parameter: it ends at the next "###",
+					// possibly lines further down; the parameter is what follows on that line. The
+					// directive stays where its keyword is.
+					il := incLine{line: ln, off: off, status: "abstain"}
+					open := off + len("INCLUDE") + (len(rest) - len(tr))
+					if k := bytes.Index(data[open+3:], []byte("###")); k >= 0 {
+						closeAt := open + 3 + k + 3
+						j := closeAt
+						for j < len(data) && data[j] != '\n' && data[j] != '\r' {
+							j++
+						}
+						if after := string(data[closeAt:j]); after != "" && (after[0] == ' ' || after[0] == '\t') {
+							il.param, il.status = lexParam(after)
+						}
+						i = j
+						il.end = j
+					}
+					out = append(out, il)
+				} else if rest == "" || rest[0] == ' ' || rest[0] == '\t' || rest[0] == '#' {
 					il := incLine{line: ln, off: off}
 					il.param, il.status = lexParam(rest)
 					out = append(out, il)
@@ -112,6 +133,9 @@ func findIncludes(data []byte) []incLine {
 // lexParam applies the language's parameter rules to the text after the keyword.
 func lexParam(rest string) (string, string) {
 	s := strings.TrimLeft(rest, " \t")
+	if strings.HasPrefix(s, "###") {
+		return "", "abstain" // a block comment in this place: may hide or be followed by anything
+	}
 	if s == "" || s[0] == '#' {
 		return "", "no-param"
 	}
